@@ -155,6 +155,15 @@ def gen_T14():
     ut = tree('plugins/Utilities/plugin.py')
     ig = find_def(ut, 'ignore', 'Utilities')
     need([ast.unparse(x) for x in ig.body[1:]] == ["msg.tag('ignored')", 'irc.noReply()'], 'Utilities.ignore: shape changed')
+    # repairs C14.F26 / C14.F28: the capability check compares the canonical plugin name _callCommand used; setting
+    # supybot.commands.disabled rebuilds the table behind Commands.isDisabled
+    need('plugin = cb.canonicalName()' in ast.unparse(find_def(cb_t, 'checkCommandCapability')),
+         'checkCommandCapability: expected plugin = cb.canonicalName()')
+    need('[self.canonicalName()] + command' in ast.unparse(find_def(cb_t, '_callCommand', 'Commands')), '_callCommand: full command name changed')
+    msrc = ast.unparse(cb_t)
+    need('conf.supybot.commands.disabled.addCallback(_reloadDisabledCommands)' in msrc and
+         'Commands._disabled = DisabledCommands()' in ast.unparse(find_def(cb_t, '_reloadDisabledCommands')),
+         'supybot.commands.disabled no longer rebuilds Commands._disabled when it is set')
     out = 'Require Import Base.Wire.\n'
     out += 'Definition CANON_SPECIAL : list N := %s.\n' % cstr(c['special'])
     out += 'Definition ERROR_PREFIX : list N := %s.\n' % cstr(c['error_prefix'])
